@@ -6,6 +6,7 @@
 #define _GNU_SOURCE
 #include "vlib.h"
 #include "rt_common.h"
+#include "hostile_core.h"
 #include <unistd.h>
 #include <dirent.h>
 #include <errno.h>
@@ -42,6 +43,8 @@ static int applies (int fault, int kind)
 
 typedef struct { long at [2] ; int fault [2] ; int persistent ; int nfaults ; int kind0 ; long first_fault_ncb ; sf_count_t len_at_fault ; } Plan ;
 static Plan plan ;
+static long faults_delivered ;	/* answers changed so far in this execution */
+static int  device_lied ;		/* a fault after which the device and its answers disagree (moved but reported elsewhere, wrong length) was delivered */
 
 static int fault_answer (MemDev *md, int fault, sf_count_t requested, sf_count_t *answer)
 {	switch (fault)
@@ -67,6 +70,7 @@ static int fault_hook (MemDev *md, int kind, sf_count_t requested, sf_count_t *a
 	{	int hit = plan.persistent ? (idx >= plan.at [k] && kind == plan.kind0) : idx == plan.at [k] ;
 		if (hit && applies (plan.fault [k], kind))
 		{	if (plan.first_fault_ncb == 0) { plan.first_fault_ncb = idx ; plan.len_at_fault = md->len ; }
+			faults_delivered ++ ; if (plan.fault [k] == F_SEEKWRONG || plan.fault [k] >= F_LEN_M1) device_lied = 1 ;
 			return fault_answer (md, plan.fault [k], requested, answer) ;
 			}
 		}
@@ -79,8 +83,15 @@ static const Fmt *F ; static int CH, B ; static char RS [96] ;
 static int private_tmp_count (void)
 {	const char *t = getenv ("TMPDIR") ; DIR *d ; struct dirent *e ; int n = 0 ;
 	if (! t || ! (d = opendir (t))) return 0 ;
-	while ((e = readdir (d))) if (e->d_name [0] != '.' && strcmp (e->d_name, "scratch")) n ++ ;
+	while ((e = readdir (d))) if (strcmp (e->d_name, ".") && strcmp (e->d_name, "..") && strcmp (e->d_name, "scratch")) n ++ ;
 	closedir (d) ; return n ;
+}
+
+static void private_tmp_clean (void)	/* so that a stray file is reported by the execution that made it and by no other */
+{	const char *t = getenv ("TMPDIR") ; DIR *d ; struct dirent *e ; char pth [900] ;
+	if (! t || ! (d = opendir (t))) return ;
+	while ((e = readdir (d))) if (strcmp (e->d_name, ".") && strcmp (e->d_name, "..") && strcmp (e->d_name, "scratch")) { snprintf (pth, sizeof (pth), "%s/%s", t, e->d_name) ; unlink (pth) ; }
+	closedir (d) ;
 }
 
 static uint64_t thash ;	/* transcript of every checked call's return value and position */
@@ -95,11 +106,11 @@ static void after_close_checks (int close_rc, int device_close_failed, const cha
 	if (sio_lib_fds_open () != 0) V16 ("leak-descriptor", "%s: %ld descriptors opened by the library are still open", what, sio_lib_fds_open ()) ;
 	if (sio_lib_files_open () != 0) V16 ("leak-stream", "%s: %ld stdio streams opened by the library are still open", what, sio_lib_files_open ()) ;
 	if (fd_baseline >= 0 && sio_fd_count () != fd_baseline) V16 ("leak-descriptor-table", "%s: the process has %d open descriptors, %d before the history", what, sio_fd_count (), fd_baseline) ;
-	if (private_tmp_count () != 0) V16 ("leak-tempfile", "%s: %d files left in the private temporary directory", what, private_tmp_count ()) ;
+	if (private_tmp_count () != 0) { V16 ("leak-tempfile", "%s: %d files left in the private temporary / working directory", what, private_tmp_count ()) ; private_tmp_clean () ; }
 	if (close_rc != 0 && ! device_close_failed && plan.nfaults == 0) V16 ("close-nonzero", "%s: sf_close returned %d although no I/O failed", what, close_rc) ;
 }
 
-static void begin_history (void) { sio_reset_alloc () ; sio_reset_fds () ; sio_reset_files () ; plan.first_fault_ncb = 0 ; plan.len_at_fault = 0 ; thash = 0 ; fd_baseline = sio_fd_count () ; }
+static void begin_history (void) { sio_reset_alloc () ; sio_reset_fds () ; sio_reset_files () ; plan.first_fault_ncb = 0 ; plan.len_at_fault = 0 ; faults_delivered = 0 ; device_lied = 0 ; thash = 0 ; fd_baseline = sio_fd_count () ; }
 
 /* checked typed calls */
 static void chk_write (SNDFILE *sf, const short *buf, long k, long *pos)
@@ -199,6 +210,7 @@ static int sys_hook (int kind, int fd, sf_count_t requested, sf_count_t *answer,
 		if (! hit || ! sapplies (splan.fault [k], kind, splan.persistent)) continue ;
 		if (plan.first_fault_ncb == 0)
 		{	struct stat st ; plan.first_fault_ncb = idx ; plan.len_at_fault = stat (scratch_path, &st) == 0 ? st.st_size : 0 ; }
+		faults_delivered ++ ; if (splan.fault [k] >= S_STAT_M1 && splan.fault [k] <= S_STAT_BIG) device_lied = 1 ;
 		switch (splan.fault [k])
 		{	case S_ZERO : *answer = 0 ; break ;
 			case S_HALF : *answer = requested / 2 ; break ;
@@ -254,6 +266,10 @@ static void route_prepare (int with_seed, unsigned char *kinds, long maxk)
 
 static long route_calls (void) { return ROUTE == R_VIO ? dev.ncb : sio_ncalls ; }
 
+static long decode_image (const unsigned char *img, sf_count_t len, short *out, long maxframes) ;
+#define MODEL_MAX 4096
+static short seed_dec [MODEL_MAX * 2] ; static long seed_dec_frames ;
+void vl_budget_exceeded (const char *what) ;
 static int build_seed (void)
 {	SF_INFO info ; SNDFILE *sf ; long N = B > 1 && B < 1200 ? 2 * B + 3 : B >= 1200 ? B + 3 : 11 ; PeekState pk ;
 	free (seed) ; seed = NULL ; free (seed_rsrc) ; seed_rsrc = NULL ; seed_rsrc_len = 0 ;
@@ -276,6 +292,7 @@ static int build_seed (void)
 	md_rewind (&dev) ; rt_info_read (&info, F, CH, fmt_default_rate (F)) ; sf = md_open (&dev, SFM_READ, &info) ;
 	if (! sf) return 0 ;
 	seed_frames = info.frames ; pk_get (sf, &pk, 0) ; seed_dataoffset = pk.dataoffset ; INLIB (sf_close (sf)) ;
+	seed_dec_frames = decode_image (seed, seed_len, seed_dec, MODEL_MAX) ;
 	return 1 ;
 }
 
@@ -295,6 +312,59 @@ static void chk_read_typed (SNDFILE *sf, int type, long k, long *pos)
 	if (r >= 0 && r <= k && pk.read_current != *pos + r) V15 ("read-position-advance", "read position %lld after delivering %lld frames from %ld", (long long) pk.read_current, (long long) r, *pos) ;
 	*pos = pk.read_current ; TH (r) ; TH (*pos) ; if (r > 0 && r <= k) TH (vl_hash (gb_ptr (&g), r * CH * type_size [type], 7)) ;
 	gb_free (&g) ;
+}
+
+/* ---- content model of the read/write workload: what every frame of the file must hold at the end.
+** Frames start as the seed's; a write the library reported at frames [p, p+w) replaces them by the written
+** data (as it decodes after a fault-free round trip through the same encoding); a call during which a fault
+** was delivered makes the frames it was aimed at unknown. Frames never named by a reported write must survive. */
+static short model [MODEL_MAX * 2] ; static unsigned char model_known [MODEL_MAX] ; static long model_len ; static long open_calls ;
+
+static long decode_image (const unsigned char *img, sf_count_t len, short *out, long maxframes)
+{	MemDev t ; SF_INFO ri ; SNDFILE *sf ; long n = -1 ;
+	if (F->needs_path) return -1 ;	/* SD2 cannot be decoded from a memory image; the frame model is not used for it */
+	md_init (&t) ; md_set (&t, img, len) ; rt_info_read (&ri, F, CH, fmt_default_rate (F)) ; sf = md_open (&t, SFM_READ, &ri) ;
+	if (sf) { n = ri.channels == CH ? (long) vl_read (sf, T_SHORT, 1, out, maxframes) : -1 ; INLIB (sf_close (sf)) ; }
+	md_free (&t) ; return n ;
+}
+
+static void roundtrip_decode (const short *buf, long frames, short *out)
+{	MemDev t ; SF_INFO wi ; SNDFILE *sf ;
+	memcpy (out, buf, frames * CH * sizeof (short)) ;
+	md_init (&t) ; rt_info (&wi, F, CH, fmt_default_rate (F)) ; sf = md_open (&t, SFM_WRITE, &wi) ;
+	if (sf) { vl_write (sf, T_SHORT, 1, buf, frames) ; INLIB (sf_close (sf)) ; decode_image (t.data, t.len, out, frames) ; }
+	md_free (&t) ;
+}
+
+static void model_init (void)
+{	model_len = seed_dec_frames ; if (model_len > MODEL_MAX) model_len = MODEL_MAX ; if (model_len < 0) model_len = 0 ;
+	memcpy (model, seed_dec, model_len * CH * sizeof (short)) ; memset (model_known, 1, model_len) ; memset (model_known + model_len, 0, MODEL_MAX - model_len) ;
+}
+
+static void model_write (SNDFILE *sf, const short *buf, long k, long *wpos)
+{	long at = *wpos, before = faults_delivered ; sf_count_t w ; short dec [64] ; PeekState pk ;
+	if (F->needs_path) { chk_write (sf, buf, k, wpos) ; return ; }
+	pk_get (sf, &pk, 0) ; at = pk.write_current ;
+	chk_write (sf, buf, k, wpos) ;
+	pk_get (sf, &pk, 0) ; w = pk.write_current - at ;
+	if (at < 0 || at + k > MODEL_MAX || k * CH > 64) return ;
+	if (faults_delivered != before || w < 0 || w > k) { memset (model_known + at, 0, k) ; if (at + k > model_len) model_len = at + k ; return ; }
+	roundtrip_decode (buf, k, dec) ;
+	for (long f = model_len ; f < at ; f++) model_known [f] = 0 ;	/* a gap the library fills as it likes */
+	memcpy (model + at * CH, dec, w * CH * sizeof (short)) ; memset (model_known + at, 1, w) ;
+	if (at + w > model_len) model_len = at + w ;
+}
+
+static void model_check (void)
+{	unsigned char *img ; sf_count_t len ; static short fin [MODEL_MAX * 2] ; long n ;
+	if (is_c16 || ! plan.first_fault_ncb || plan.first_fault_ncb <= open_calls || device_lied) return ;
+	if (ROUTE == R_VIO) { img = dev.data ; len = dev.len ; } else img = get_file (scratch_path, &len) ;
+	n = img ? decode_image (img, len, fin, MODEL_MAX) : -1 ;
+	if (ROUTE == R_PATH) free (img) ;
+	if (n < 0) return ;	/* the header did not survive the faults: nothing to compare frames against */
+	for (long f = 0 ; f < n && f < model_len ; f++)
+		if (model_known [f] && memcmp (fin + f * CH, model + f * CH, CH * sizeof (short)))
+		{	V15 ("accepted-data-damaged", "frame %ld holds %d at the end; it was %d before the fault at I/O call %ld and no write was reported there afterwards", f, fin [f * CH], model [f * CH], plan.first_fault_ncb) ; return ; }
 }
 
 /* returns the number of I/O calls the run performed; kinds (if not NULL) receives the kind of each one */
@@ -322,16 +392,20 @@ static long workload (int w, unsigned char *kinds, long maxk)
 			}
 		}
 	else if (w == W_RDWR)
-	{	long rpos = 0, wpos ;
+	{	long rpos = 0, wpos ; int rdwr_ran = 0 ;
 		rt_info_read (&info, F, CH, fmt_default_rate (F)) ;
 		if ((sf = route_open (SFM_RDWR, &info)))
 		{	chk_info (&info) ;
 			if (info.channels == CH)
-			{	PeekState pk ; pk_get (sf, &pk, 0) ; wpos = pk.write_current ;
-				chk_read (sf, 3, &rpos) ; chk_write (sf, wdata, 2, &wpos) ; chk_seek (sf, 1, SFM_READ, seed_frames, &rpos) ; chk_read (sf, 2, &rpos) ;
-				chk_seek (sf, 2, SFM_WRITE, seed_frames, &wpos) ; chk_write (sf, wdata + 40, 3, &wpos) ;
+			{	PeekState pk ; pk_get (sf, &pk, 0) ; wpos = pk.write_current ; open_calls = route_calls () ; model_init () ;
+				chk_read (sf, 3, &rpos) ; model_write (sf, wdata, 2, &wpos) ; chk_seek (sf, 1, SFM_READ, seed_frames, &rpos) ; chk_read (sf, 2, &rpos) ;
+				chk_seek (sf, 2, SFM_WRITE, seed_frames, &wpos) ; model_write (sf, wdata + 40, 3, &wpos) ;
+				chk_seek (sf, 0, SFM_READ, seed_frames, &rpos) ; chk_read (sf, 2, &rpos) ;
+				chk_seek (sf, seed_frames, SFM_WRITE, seed_frames, &wpos) ; model_write (sf, wdata + 80, 2, &wpos) ;
+				rdwr_ran = 1 ;
 				}
 			INLIB (rc = sf_close (sf)) ;
+			if (rdwr_ran) model_check () ;
 			}
 		}
 	else if (w == W_WRITE_META)
@@ -660,6 +734,52 @@ static void malformed_sweep (void)
 	free (img) ;
 }
 
+/* ---- C16 (b'): the C03 input families (every catalogue format, metadata-rich and hand-built files; truncations, byte and word
+** replacements, chunk edits, unconstrained bytes), each opened, read from and closed with the accounting on */
+
+static void probe_image (const Seed *s, const unsigned char *img, sf_count_t len, int mode, int route)
+{	SF_INFO info ; SNDFILE *sf ; int rc = 0 ;
+	clear_plan () ; ROUTE = route ; begin_history () ;
+	memset (&info, 0, sizeof (info)) ;
+	if (s->raw_format) { info.format = s->raw_format ; info.channels = s->raw_ch ; info.samplerate = s->raw_rate ; }
+	if (route == R_VIO)
+	{	md_set (&dev, img, len) ; dev.fault = NULL ; dev.log_on = 0 ; dev.budget = 20000 + 64 * ((long) len + 60000) ; sf = md_open (&dev, mode, &info) ; }
+	else
+	{	scratch_clean () ; snprintf (scratch_path, sizeof (scratch_path), "%s/f.dat", scratch_dir) ; put_file (scratch_path, img, len) ;
+		splan.budget = 20000 + 64 * ((long) len + 60000) ; sio_set_fault (sys_hook, NULL) ;
+		INLIB (sf = sf_open (scratch_path, mode, &info)) ;
+		}
+	if (sf)
+	{	if (info.channels >= 1 && info.channels <= 1024)
+		{	static short buf [4 * 1024 + 16] ; vl_read (sf, T_SHORT, 1, buf, 4) ; INLIB (sf_get_string (sf, SF_STR_TITLE)) ; }
+		INLIB (rc = sf_close (sf)) ;
+		}
+	if (route == R_PATH) sio_set_fault (NULL, NULL) ;
+	after_close_checks (rc, 0, sf ? "after sf_close of a damaged file" : "after the refused open of a damaged file") ;
+	probes_done ++ ; vl_count_transitions (1) ; vl_count_states (1) ; vl_count_extra (1, 1) ;
+}
+
+static void c16_mutant (const Seed *s, const Mut *m, int routes_mask, int pairs)
+{	static unsigned char *work ; static sf_count_t work_cap ; char desc [200] ; int described = 0 ; sf_count_t len = -1 ;
+	/* executions: read mode on virtual I/O for every mutant; read mode on a real path where C03 also uses descriptors; read/write mode for truncations and chunk edits */
+	int plan_n = 0, plan_mode [3], plan_route [3] ;
+	(void) pairs ;
+	plan_mode [plan_n] = SFM_READ ; plan_route [plan_n ++] = R_VIO ;
+	if (routes_mask & (1 << HR_FD)) { plan_mode [plan_n] = SFM_READ ; plan_route [plan_n ++] = R_PATH ; }
+	if (m->kind == M_IDENT || m->kind == M_TRUNC || (m->kind >= M_CDEL && m->kind <= M_CSHRINK) || vl_opts.thorough) { plan_mode [plan_n] = SFM_RDWR ; plan_route [plan_n ++] = R_VIO ; }
+	for (int k = 0 ; k < plan_n ; k++)
+	{	if (! vl_peek ()) { vl_skip (1) ; continue ; }
+		if (! described) { hc_describe (m, desc, sizeof (desc)) ; described = 1 ; }
+		if (vl_case ("C16 X seed=%s fam=%s %s route=%s mode=%d", s->name, hc_family (m), desc, route_names [plan_route [k]], plan_mode [k]))
+		{	if (len < 0) { if (2 * s->len + 4096 > work_cap) { work_cap = 4 * s->len + 8192 ; work = realloc (work, work_cap) ; } len = hc_materialise (s, m, work) ; }
+			vl_root_count (s->fam) ;
+			snprintf (RS, sizeof (RS), "%s|damaged-file|%s", s->fam, hc_family (m)) ;
+			probe_image (s, work, len, plan_mode [k], plan_route [k]) ;
+			vl_end (1, vl_hash_u64 (route_calls (), m->kind)) ;
+			}
+		}
+}
+
 /* ---------------------------------------------------------------- C16 (d): every bounded call history ending in sf_close */
 
 enum { H_READ = 0, H_WRITE, H_SEEK0, H_SEEKBAD, H_BADCMD, H_STRING, H_BADSTRING, H_UPDATE, H_ITER, H_SETCHUNK, H_NOPS } ;
@@ -752,10 +872,31 @@ void harness_run (void)
 		pipe_sweep () ;
 		if (is_c16)
 		{	snprintf (RS, sizeof (RS), "%s|damaged-file", rt_fam (F)) ;
-			malformed_sweep () ;
+			if (F->needs_path) malformed_sweep () ;	/* the other formats get the larger hostile-input families below */
 			for (int k = 0 ; history_formats [k] ; k++) if (! strcmp (history_formats [k], F->name)) in_hist = 1 ;
 			if (in_hist) run_call_histories () ;
 			}
+		}
+	if (is_c16)
+	{	/* every catalogue format x mode through virtual I/O, closed at once (formats that need a path included: they must be refused cleanly) */
+		static const int modes [3] = { SFM_WRITE, SFM_RDWR, SFM_READ } ;
+		for (int i = 0 ; i < fmt_count ; i++)
+			for (int mi = 0 ; mi < 3 ; mi++)
+				if (vl_case ("C16 V fmt=%s mode=%d open-and-close-at-once route=vio", fmt_list [i].name, modes [mi]))
+				{	SF_INFO info ; SNDFILE *sf ; int rc = 0 ;
+					F = &fmt_list [i] ; CH = rt_accepts (F, 2, fmt_default_rate (F)) ? 2 : 1 ; snprintf (RS, sizeof (RS), "%s|open-close", rt_fam (F)) ;
+					clear_plan () ; ROUTE = R_VIO ; begin_history () ; md_reset (&dev) ; dev.fault = NULL ; dev.budget = 4000000 ;
+					if (modes [mi] == SFM_READ) { rt_info_read (&info, F, CH, fmt_default_rate (F)) ; md_set (&dev, "not a sound file, sixty-four bytes of text to be rejected........", 64) ; }
+					else rt_info (&info, F, CH, fmt_default_rate (F)) ;
+					sf = md_open (&dev, modes [mi], &info) ;
+					if (sf) INLIB (rc = sf_close (sf)) ;
+					after_close_checks (rc, 0, sf ? "after sf_close of an untouched handle" : "after a refused open") ;
+					vl_root_count (F->name) ; vl_count_states (1) ; vl_count_transitions (2) ;
+					vl_end (1, sf != NULL) ;
+					}
+		hc_build_seeds () ;
+		for (int i = 0 ; i < hc_nseeds ; i++) hc_seed_families (&hc_seeds [i], c16_mutant) ;
+		hc_unconstrained (c16_mutant) ;
 		}
 	scratch_clean () ; rmdir (scratch_dir) ;
 }
